@@ -141,12 +141,9 @@ pub fn format_location(
         let line = lines
             .clone()
             .nth(line_pos)
-            .map_or(line_def.clone(), |line| {
-                if line.is_empty() {
-                    line_def
-                } else {
-                    format!("{offset_str}{:4} | {line}\n", pos.start.line)
-                }
+            // Also an empty line is quoted under its number: the position is on it.
+            .map_or(line_def, |line| {
+                format!("{offset_str}{:4} | {line}\n", pos.start.line)
             });
         let after = lines
             .clone()
